@@ -1,6 +1,10 @@
 //! pkverif: conformance harness binding the TLA+ specifications in /verif/spec to the code in /repo.
+mod cer;
+mod cerclient;
+mod cerrun;
 mod hid;
 mod psl;
+mod rp;
 mod rpid;
 mod util;
 
@@ -12,6 +16,7 @@ fn main() {
     }
     let args = util::Args::parse(&raw[1..]);
     match raw[0].as_str() {
+        "cer" => cerrun::main(&args),
         "hid" => hid::main(&args),
         "psl" => psl::main(&args),
         "rpid" => rpid::main(&args),
